@@ -816,3 +816,95 @@ def check_C16(ctx):
             ctx.samples.append(ln)
             break
     ctx.samples.append(lines[len(lines) // 2])
+    if res["ok"]:
+        gated_schedules(ctx, deps)
+
+
+def gated_schedules(ctx, deps):
+    """Specification -> implementation for C16: every reachable state of TableInit.tla (over the observed dependencies and
+    programs) in which some initialiser is running is reached on the real code - hook H6 holds one thread per stack at the
+    begin / end of its innermost initialiser, the threads about to force a table become arrivals - and then everything is
+    released at the same instant.  The model says the system terminates from every such state whatever the scheduler does;
+    a process that does not finish (watchdog), panics, or produces a result that differs from sequential execution is a
+    violation.  States with two initialisers at their begin are repeated many times in 'fast' processes (they end as soon as
+    all released threads but one have moved on), sweeping the relative timing of the released threads."""
+    res = tlc_run("MC_TableInit", "MC_TableInit_sched.cfg", workers=4, timeout=1800, env={"DEPS": deps}, tag="MC_TableInit_sched_" + ctx.prop)
+    if not res["ok"]:
+        raise ToolError("MC_TableInit_sched failed: %s\n%s" % (res["violated"], res["out"][-2000:]))
+    views = set()
+    for line in res["out"].splitlines():
+        if line.startswith('<<"HOLD", "'):
+            views.add(json.loads(line[len('<<"HOLD", '):-2]))
+    scen = {}
+    for v in views:
+        d = json.loads(v)
+        hold = []
+        for st in d["stks"]:
+            at = "begin" if st["fresh"] else ("end" if st["spent"] else None)
+            if at is None:
+                hold = None
+                break
+            hold.append((st["touch"], st["hold"], at))
+        if hold is None:
+            continue
+        key = (tuple(sorted(hold)), tuple(sorted(x[1] for x in d["next"])))
+        done = sorted(d["done"])
+        if key not in scen or len(done) < len(scen[key]):
+            scen[key] = done
+    T = ctx.thorough
+    out = []
+    n_pair = n_pub = n_full = 0
+    seen_pairs = set()
+    for (hold, arr), done in sorted(scen.items()):
+        holders = [{"touch": h[0], "hold": h[1], "at": h[2]} for h in hold]
+        # (P) two or more running initialisers, no arrivals: tight races right after the release
+        if len(hold) >= 2 and hold not in seen_pairs:
+            seen_pairs.add(hold)
+            all_begin = all(h[2] == "begin" for h in hold)
+            rep = (6000 if T else 1500) if (all_begin and len(hold) == 2) else (600 if T else 100)
+            out.append({"fast": True, "done": done, "holders": holders, "arrivals": [], "repeat": rep})
+            n_pair += 1
+    for (hold, arr), done in sorted(scen.items()):
+        # (Q) one initialiser about to publish, many threads arriving at that very table
+        if len(hold) == 1 and hold[0][2] == "end" and hold[0][0] == hold[0][1] and arr and all(a == hold[0][0] for a in arr):
+            holders = [{"touch": hold[0][0], "hold": hold[0][1], "at": "end"}]
+            key = ("Q", hold[0][0])
+            if key in seen_pairs:
+                continue
+            seen_pairs.add(key)
+            out.append({"fast": True, "done": done, "holders": holders, "arrivals": [hold[0][0]] * 12, "repeat": 400 if T else 60})
+            n_pub += 1
+    # (F) the states as they are, whole processes with results compared (a seeded sample in the quick tier)
+    keys = sorted(scen)
+    rnd = __import__("random").Random(int(ctx.seed))
+    sample = keys if T else rnd.sample(keys, min(len(keys), 120))
+    for (hold, arr) in sample:
+        out.append({"fast": False, "done": scen[(hold, arr)], "holders": [{"touch": h[0], "hold": h[1], "at": h[2]} for h in hold],
+                    "arrivals": list(arr), "repeat": 2 if T else 1})
+        n_full += 1
+    sc_path = ctx.path("gated_scenarios.ndjson")
+    with open(sc_path, "w") as f:
+        for o in out:
+            f.write(json.dumps(o) + "\n")
+    gtrace = ctx.path("gated.ndjson")
+    rc, info, outp = harness(["gated", "--scenarios", sc_path, "--out", gtrace, "--seed", ctx.seed, "--par", 8, "--child-timeout", 6], timeout=7200)
+    ctx.evaluations += info["events"]
+    r = tlc_trace_seq("Trace_TableInit", "Trace_TableInit.cfg", gtrace, extra_env={"DEPS": deps})
+    ctx.states += r["states"]
+    ctx.transitions += r["transitions"]
+    log("[gated] %d model states -> %d drivable; %d pair + %d publish + %d full scenarios, %d processes, %d hangs, %d unreached; accepted=%s" % (
+        len(views), len(scen), n_pair, n_pub, n_full, info["procs"], info["hangs"], info["unreached"], r["accepted"]))
+    ctx.extra["gated"] = {"model_states_with_running_initialiser": len(views), "drivable_states": len(scen), "pair_scenarios": n_pair,
+                          "publish_scenarios": n_pub, "full_scenarios": n_full, "processes": info["procs"], "unreached": info["unreached"]}
+    if r["accepted"]:
+        ctx.traces += info["procs"]
+        ctx.distinct += info["procs"]
+    else:
+        lines = open(gtrace).read().splitlines()
+        at = r["matched"] or 0
+        start = at
+        while start > 0 and '"ev":"proc"' not in lines[start]:
+            start -= 1
+        p = save_replay(ctx.prop, "gated-violation.ndjson", "\n".join(lines[start:at + 1]))
+        ctx.violation("gated schedule: process event rejected by Trace_TableInit at line %d: %s (process: %s)" % (at + 1, short(lines[at], 300), short(lines[start], 400)),
+                      p, {"source": "gated"})
